@@ -20,8 +20,80 @@ def oracle(case, out):
     return None
 
 
+def gen_app_cases(rng, n):
+    """apps: the hand-written Message impl of the runtime (ApplicationException, directly and through Box / Arc): several
+    size() / encode() calls in every order on ONE protocol object, also inside an open enclosing struct field"""
+    from .. import thriftgen as tg
+    msgs = [b"", b"boom", b"x" * 127, b"y" * 128, b"z" * 300, b"w" * 5000]
+    kinds = [0, 1, 6, 7, 10, 63, 64, -1, 2 ** 31 - 1, -2 ** 31, 99]
+    cases = []
+    def one(pk, bk, wrap, pattern):
+        ops = []
+        m, k = rng.choice(msgs), rng.choice(kinds)
+        for ch in pattern:
+            if ch in "ze":
+                ops.append("%s %s %d" % (ch, tg.hx(m), k))
+            elif ch in "ZE":       # another exception
+                m2, k2 = rng.choice(msgs), rng.choice(kinds)
+                ops.append("%s %s %d" % (ch.lower(), tg.hx(m2), k2))
+            elif ch == "o":
+                ops.append("o %d" % rng.choice([1, 2, 5, 15, 16, 300, -1]))
+            else:
+                ops.append("c")
+        return "apps %s %s %s %d %s" % (pk, bk, wrap, len(ops), " ".join(ops))
+    pats = ["ze", "zze", "zeze", "zzzee", "ezze", "zeZE", "ozec", "ozzec", "ozecze", "zeozzec", "ZzEe", "zZeE", "ooZecEc"]
+    for pk in c01.PKS:
+        for bk in c01.BKS:
+            for wrap in ("plain", "box", "arc"):
+                for pat in pats:
+                    cases.append(one(pk, bk, wrap, pat))
+    while len(cases) < n:
+        pat = "".join(rng.choice("zzeeZEoc") for _ in range(rng.randrange(2, 9)))
+        # keep o / c balanced
+        depth, fixed = 0, ""
+        for ch in pat:
+            if ch == "c" and depth == 0:
+                continue
+            depth += (ch == "o") - (ch == "c")
+            fixed += ch
+        cases.append(one(rng.choice(c01.PKS), rng.choice(c01.BKS), rng.choice(["plain", "box", "arc"]), fixed + "c" * depth))
+    return cases
+
+
+def app_oracle(case, out):
+    """every size() of an exception == the number of bytes every encode() of the same exception writes, wherever in the
+    sequence the two are called"""
+    if " ERR " in out or not out.startswith("A"):
+        return "ApplicationException size / encode failed: " + out[:80]
+    t = case.split(" ")
+    n = int(t[4]); toks = t[5:]
+    res = out.split(" ")
+    if "W" not in res:
+        return "malformed output"
+    res = res[1:res.index("W")]
+    if len(res) != n:
+        return "malformed output"
+    i, sizes, writes = 0, {}, {}
+    for r in res:
+        op = toks[i]
+        if op in ("z", "e"):
+            key = (toks[i + 1], toks[i + 2]); i += 3
+            (sizes if op == "z" else writes).setdefault(key, []).append(int(r[1:]))
+        elif op == "o":
+            i += 2
+        else:
+            i += 1
+    for key, zs in sizes.items():
+        ws = writes.get(key, [])
+        if len(set(zs)) > 1:
+            return "size() of the same ApplicationException on one protocol object changed between calls: %s" % zs
+        if ws and (len(set(ws)) > 1 or ws[0] != zs[0]):
+            return "ApplicationException::size() reported %d, encode() wrote %s bytes" % (zs[0], ws)
+    return None
+
+
 def run_prim(chk, replay=None):
-    return c01.run_rt(chk, replay, oracle, "C04")
+    return c01.run_rt(chk, replay, oracle, "C04", extra=(gen_app_cases, app_oracle, "apps"))
 
 
 def run(chk, replay=None):
